@@ -683,6 +683,10 @@ func runAdapters(f lib.Flags, res *lib.Result, drv *lib.Driver) {
 		if oracleVerdict(c.RPC, c.governing(), n, fl) == "" {
 			continue // order-dependent (unary Race, mixed members)
 		}
+		if crashedStrategy(crashedFns, c.Read) || crashedStrategy(crashedFns, c.Write) {
+			mon.Count("skipped-crashing-entry-point")
+			continue
+		}
 		if stalled[c.RPC] >= 2 {
 			// every stalled call / subscription leaves its goroutines behind: after two of one RPC kind (the run
 			// has failed on them anyway) the remaining cases of that kind are skipped
